@@ -32,13 +32,13 @@ theorem elems_zero (h : Heap) (n : Id) :
     elems h 0 n = if (h n).kind = .elem then none else some [] := by simp [elems]
 theorem elems_succ (h : Heap) (f : Nat) (n : Id) :
     elems h (f + 1) n = if (h n).kind = .elem then (elemsL h f (h n).kids).map (fun l => n :: l) else some [] := by
-  simp [elems]
-theorem elemsL_nil (h : Heap) (f : Nat) : elemsL h f [] = some [] := by simp [elemsL]
+  simp [elems, elemsL]
+theorem elemsL_nil (h : Heap) (f : Nat) : elemsL h f [] = some [] := by simp [elemsL, elemsStep]
 theorem elemsL_cons (h : Heap) (f : Nat) (k : Id) (r : List Id) :
     elemsL h f (k :: r) = match elems h f k, elemsL h f r with
       | some a, some b => some (a ++ b)
       | _, _ => none := by
-  rw [elemsL]; cases elems h f k <;> cases elemsL h f r <;> rfl
+  simp only [elemsL, elemsStep]; cases elems h f k <;> cases elemsStep (fun k => elems h f k) r <;> rfl
 
 theorem elems_of_not_elem {h : Heap} {n : Id} (hk : (h n).kind ≠ .elem) (f : Nat) : elems h f n = some [] := by
   cases f <;> simp [elems, hk]
@@ -317,7 +317,8 @@ theorem elByType_eq_filter (h : Heap) (n : Id) (q : Nat) (hk : (h n).kind = .ele
     elByType h n q = (elemsUnder h n).map (fun l => l.filter (fun x => (h x).qn = q)) := by
   unfold elByType elemsUnder
   rw [(getByObj_spec h q FUEL).1 n [] hk]
-  cases elems h FUEL n <;> simp
+  generalize elems h FUEL n = o
+  cases o <;> simp
 
 /-! ### closed forms of the index maintenance -/
 
@@ -349,7 +350,8 @@ theorem walk_run (n : Id) (s : DState) : (walk n).run s =
     | none => (s, .error .RecursionError) := by
   unfold walk
   simp only [DomDoc.run_bind_rd]
-  cases elemsUnder s.heap n <;> rfl
+  generalize elemsUnder s.heap n = o
+  cases o <;> rfl
 
 /-- `dropStyleEntry` as a function -/
 def dropStylePure (x : Id) (s : DState) : DState :=
@@ -451,7 +453,8 @@ theorem setOwnerRec_run (n : Id) (v : Bool) (s : DState) : (setOwnerRec n v).run
     | none => (s, .error .RecursionError) := by
   unfold setOwnerRec
   rw [DomDoc.run_bind, walk_run]
-  cases elemsUnder s.heap n with
+  generalize elemsUnder s.heap n = o
+  cases o with
   | none => rfl
   | some l => exact forEach_run_pure _ (fun x s => setOwned s x v) (fun _ _ => rfl) l s
 
@@ -461,7 +464,8 @@ theorem removeFromCaches_run (n : Id) (s : DState) : (removeFromCaches n).run s 
     | none => (s, .error .RecursionError) := by
   unfold removeFromCaches
   rw [DomDoc.run_bind, walk_run]
-  cases elemsUnder s.heap n with
+  generalize elemsUnder s.heap n = o
+  cases o with
   | none => rfl
   | some l => exact forEach_run_pure _ removeOnePure removeOne_run l s
 
@@ -471,7 +475,8 @@ theorem rebuildCaches_run (n : Id) (s : DState) : (rebuildCaches n).run s =
     | none => (s, .error .RecursionError) := by
   unfold rebuildCaches
   rw [DomDoc.run_bind, walk_run]
-  cases elemsUnder s.heap n with
+  generalize elemsUnder s.heap n = o
+  cases o with
   | none => rfl
   | some l => exact forEach_run_pure _ buildPure buildCaches_run l s
 
@@ -670,6 +675,8 @@ structure CohIdx (s : DState) : Prop where
   mem_iff : ∀ q x, x ≠ s.top → (x ∈ ed s q ↔ Att s x ∧ (s.heap x).kind = .elem ∧ (s.heap x).qn = q)
   top_mem : ∀ q, s.top ∈ ed s q → (s.heap s.top).qn = q
   owned_iff : ∀ x, (s.heap x).kind = .elem → (s.owned x = true ↔ Att s x)
+  /-- text and CDATA nodes carry no ownerDocument -/
+  text_unowned : ∀ x, (s.heap x).kind ≠ .elem → s.owned x = false
 
 theorem AncOrSelf.mono {h h' : Heap} (hp : ∀ y q, (h' y).parent = some q → (h y).parent = some q) {a x : Id}
     (ha : AncOrSelf h' a x) : AncOrSelf h a x := by
@@ -736,7 +743,12 @@ theorem coh_remove {s s' : DState} {p c : Id} {l : List Id}
     · have hk0 : (s'.heap c).kids = [] := hI'.childless c (by rw [hkind]; exact hce)
       have := AncOrSelf.eq_of_no_kids hI' hk0 hcx
       rw [this] at hxe; exact hce hxe
-  refine ⟨by rw [htop, hkind]; exact hC.top_elem, by rw [htop]; exact hptop', hnd', ?_, ?_, ?_⟩
+  refine ⟨by rw [htop, hkind]; exact hC.top_elem, by rw [htop]; exact hptop', hnd', ?_, ?_, ?_, ?_⟩
+  rotate_left 3
+  · intro x hxe
+    rw [hkind] at hxe
+    have : x ∉ l := fun hm => hxe (by rw [← hkind]; exact ((hl x).mp hm).2)
+    rw [how x]; simp [this, hC.text_unowned x hxe]
   · intro q x hxt
     rw [htop] at hxt
     rw [hed q x, hC.mem_iff q x hxt, hR x, hl x, hkind, hqn]
@@ -829,7 +841,12 @@ theorem coh_attach {s s' : DState} {p c : Id} {l : List Id}
     intro hm
     exact hct (anc_of_no_parent hptop' ((hl s.top).mp hm).1).symm
   have hop : s.owned p = true ↔ Att s p := hC.owned_iff p hkp
-  refine ⟨by rw [htop, hkind]; exact hC.top_elem, by rw [htop]; exact hptop', ?_, ?_, ?_, ?_⟩
+  refine ⟨by rw [htop, hkind]; exact hC.top_elem, by rw [htop]; exact hptop', ?_, ?_, ?_, ?_, ?_⟩
+  rotate_left 4
+  · intro x hxe
+    rw [hkind] at hxe
+    have : x ∉ l := fun hm => hxe (by rw [← hkind]; exact ((hl x).mp hm).2)
+    rw [how x]; simp [this, hC.text_unowned x hxe]
   · intro q
     rw [hed q]
     split
@@ -1185,7 +1202,7 @@ theorem detach_good {c : Id} {s s' : DState} {r : Except Err Unit} (hG : Good s)
     rw [hp] at hrun
     have hG' := removeChild_good hG hrun hr
     rcases removeChild_view hrun hG.2.2.nodup with ⟨e, hnf⟩ | hrec | ⟨hok, _, l, _, hh, ht, _⟩
-    · subst e; exact ⟨hG, rfl, fun h => by rw [hnf] at h; cases h, fun _ => rfl⟩
+    · subst e; exact ⟨hG, rfl, (fun h => by rw [hnf] at h; cases h), (fun _ => rfl)⟩
     · exact absurd hrec hr
     · refine ⟨hG', ht, fun _ => ?_, fun h => absurd hok h⟩
       rw [hh]; unfold detach; rw [hp]
@@ -1275,5 +1292,588 @@ theorem insertBefore_good {p n : Id} {ref : Option Id} {s s' : DState} {r : Exce
       cases hrun; exact hG
   · simp [hk] at hrun
     rw [← hrun.1]; exact hG
+
+/-! ### operations that leave links, kinds and qnames alone; object creation -/
+
+theorem att_congr {s s' : DState} (ht : s'.top = s.top) (hp : ∀ y, (s'.heap y).parent = (s.heap y).parent) (x : Id) :
+    Att s' x ↔ Att s x := by
+  unfold Att; rw [ht]
+  exact ⟨AncOrSelf.congr hp, AncOrSelf.congr (fun y => (hp y).symm)⟩
+
+/-- a state that differs only in attribute values (and style dictionary) is as good -/
+theorem good_of_sameLinks {s s' : DState} (hG : Good s) (hs : SameLinks s.heap s'.heap) (ht : s'.top = s.top)
+    (he : s'.edict = s.edict) (ho : s'.ownedL = s.ownedL) : Good s' := by
+  obtain ⟨hI, hA, hC⟩ := hG
+  refine ⟨inv_sameLinks hI hs, acyclic_sameLinks hA hs, ?_⟩
+  have hatt := att_congr ht (fun y => (hs y).2.1)
+  refine ⟨by rw [ht, (hs _).2.2.2.2.1]; exact hC.top_elem, by rw [ht, (hs _).2.1]; exact hC.top_root, ?_, ?_, ?_, ?_, ?_⟩
+  · intro q; unfold ed; rw [he]; exact hC.nodup q
+  · intro q x hx; rw [ht] at hx
+    unfold ed; rw [he, hatt x, (hs x).2.2.2.2.1, (hs x).2.2.2.2.2]; exact hC.mem_iff q x hx
+  · intro q hq; rw [ht] at hq ⊢; unfold ed at hq; rw [he] at hq
+    rw [(hs _).2.2.2.2.2]; exact hC.top_mem q hq
+  · intro x hx; rw [(hs x).2.2.2.2.1] at hx
+    rw [owned_congr ho, hatt x]; exact hC.owned_iff x hx
+  · intro x hx; rw [(hs x).2.2.2.2.1] at hx
+    rw [owned_congr ho]; exact hC.text_unowned x hx
+
+theorem setAttrNS_sameLinks (h : Heap) (e key : Nat) (conv : Except Err Nat) :
+    SameLinks h ((Dom.setAttrNS e key conv).run h).1 := by
+  unfold Dom.setAttrNS
+  cases conv with
+  | error x => exact SameLinks.refl _
+  | ok v => simp; exact sameLinks_setAttrs _ _ _
+
+theorem setAttribute_sameLinks (h : Heap) (e : Id) (k t a : Bool) (key : Nat) (conv : Except Err Nat) :
+    SameLinks h ((Dom.setAttribute e k t a key conv).run h).1 := by
+  unfold Dom.setAttribute
+  cases k <;> cases t <;> cases a <;> simp
+  all_goals first | exact SameLinks.refl _ | exact setAttrNS_sameLinks h e key conv
+
+theorem removeAttribute_sameLinks (h : Heap) (e : Id) (k t a : Bool) (key : Nat) :
+    SameLinks h ((Dom.removeAttribute e k t a key).run h).1 := by
+  unfold Dom.removeAttribute
+  cases k <;> cases t <;> cases a <;> simp
+  all_goals first
+    | exact SameLinks.refl _
+    | (split
+       · exact SameLinks.refl _
+       · exact sameLinks_setAttrs _ _ _)
+
+/-- a new object (an unused id) enters the heap detached, unowned, unindexed -/
+theorem initNode_good {s : DState} (hG : Good s) {i : Id} (hb : Blank s.heap i) (hit : i ≠ s.top) (k : Kind) (qn : Nat) :
+    Good { s with heap := s.heap.set i { kind := k, qn := qn } } := by
+  obtain ⟨hI, hA, hC⟩ := hG
+  have hpar : ∀ y, ((s.heap.set i { kind := k, qn := qn }) y).parent = (s.heap y).parent := by
+    intro y; rw [Heap.set_apply]; split
+    · rename_i e; subst e; exact hb.1.symm
+    · rfl
+  have hother : ∀ y, y ≠ i → (s.heap.set i { kind := k, qn := qn }) y = s.heap y :=
+    fun y hy => Heap.set_other _ _ _ _ hy
+  have hni : ¬ Att s i := fun ha => hit (anc_of_no_parent hb.1 ha)
+  have hoi : s.owned i = false := by
+    by_cases hk : (s.heap i).kind = .elem
+    · cases ho : s.owned i with
+      | false => rfl
+      | true => exact absurd ((hC.owned_iff i hk).mp ho) hni
+    · exact hC.text_unowned i hk
+  refine ⟨initNode_inv hI hb k qn, acyclic_of_same_parents hA hpar, ?_⟩
+  have hatt : ∀ x, Att { s with heap := s.heap.set i { kind := k, qn := qn } } x ↔ Att s x :=
+    att_congr rfl hpar
+  refine ⟨?_, ?_, hC.nodup, ?_, ?_, ?_, ?_⟩
+  · show ((s.heap.set i { kind := k, qn := qn }) s.top).kind = .elem
+    rw [hother _ (Ne.symm hit)]; exact hC.top_elem
+  · show ((s.heap.set i { kind := k, qn := qn }) s.top).parent = none
+    rw [hpar]; exact hC.top_root
+  · intro q x hx
+    show x ∈ ed s q ↔ _
+    rw [hatt x]
+    by_cases hxi : x = i
+    · subst hxi
+      have : x ∉ ed s q := fun hm => hni ((hC.mem_iff q x hx).mp hm).1
+      simp [this, hni]
+    · show x ∈ ed s q ↔ Att s x ∧ ((s.heap.set i { kind := k, qn := qn }) x).kind = .elem ∧
+        ((s.heap.set i { kind := k, qn := qn }) x).qn = q
+      rw [hother x hxi]; exact hC.mem_iff q x hx
+  · intro q hq
+    show ((s.heap.set i { kind := k, qn := qn }) s.top).qn = q
+    rw [hother _ (Ne.symm hit)]; exact hC.top_mem q hq
+  · intro x hx
+    show s.owned x = true ↔ _
+    rw [hatt x]
+    by_cases hxi : x = i
+    · subst hxi; simp [hoi, hni]
+    · have : (s.heap x).kind = .elem := by
+        have h2 : ((s.heap.set i { kind := k, qn := qn }) x).kind = .elem := hx
+        rw [hother x hxi] at h2; exact h2
+      exact hC.owned_iff x this
+  · intro x hx
+    show s.owned x = false
+    by_cases hxi : x = i
+    · subst hxi; exact hoi
+    · have : (s.heap x).kind ≠ .elem := by
+        have h2 : ((s.heap.set i { kind := k, qn := qn }) x).kind ≠ .elem := hx
+        rw [hother x hxi] at h2; exact h2
+      exact hC.text_unowned x this
+
+/-! ### the add* wrappers -/
+
+theorem addElement_good {p c : Id} {a : Bool} {s s' : DState} {r : Except Err Unit} (hG : Good s)
+    (hno : ¬ AncOrSelf s.heap c p) (hct : c ≠ s.top)
+    (hrun : (DomDoc.addElement p c a).run s = (s', r)) (hr : r ≠ .error .RecursionError) : Good s' := by
+  unfold DomDoc.addElement at hrun
+  cases a with
+  | false => simp at hrun; rw [← hrun.1]; exact hG
+  | true => simp at hrun; exact appendChild_good hG hno hct hrun hr
+
+theorem appendNew_good {p t : Id} {k : Kind} {s s' : DState} {r : Except Err Unit} (hG : Good s)
+    (hb : Blank s.heap t) (htp : t ≠ p) (htt : t ≠ s.top)
+    (hrun : (DomDoc.appendChild p t).run { s with heap := s.heap.set t { kind := k, qn := 0 } } = (s', r))
+    (hr : r ≠ .error .RecursionError) : Good s' := by
+  have hG1 := initNode_good hG hb htt k 0
+  refine appendChild_good hG1 ?_ htt hrun hr
+  intro ha
+  have := AncOrSelf.eq_of_no_kids hG1.1 (by simp) ha
+  exact htp this.symm
+
+/-- **C09 (text nodes)**: adding text keeps index and ownerDocument right (and see
+    `text_node_edit_keeps_index`) -/
+theorem addText_good {p t : Id} {a ne : Bool} {s s' : DState} {r : Except Err Unit} (hG : Good s)
+    (hb : Blank s.heap t) (htp : t ≠ p) (htt : t ≠ s.top)
+    (hrun : (DomDoc.addText p t a ne).run s = (s', r)) (hr : r ≠ .error .RecursionError) : Good s' := by
+  unfold DomDoc.addText at hrun
+  cases a with
+  | false => simp at hrun; rw [← hrun.1]; exact hG
+  | true =>
+    cases ne with
+    | false => simp at hrun; rw [← hrun.1]; exact hG
+    | true =>
+      simp only [Bool.not_true, Bool.false_eq_true, if_false, if_true, DomDoc.run_bind_pure] at hrun
+      rw [run_bind_liftH, initNode_run] at hrun
+      exact appendNew_good hG hb htp htt hrun hr
+
+theorem addCDATA_good {p t : Id} {a : Bool} {s s' : DState} {r : Except Err Unit} (hG : Good s)
+    (hb : Blank s.heap t) (htp : t ≠ p) (htt : t ≠ s.top)
+    (hrun : (DomDoc.addCDATA p t a).run s = (s', r)) (hr : r ≠ .error .RecursionError) : Good s' := by
+  unfold DomDoc.addCDATA at hrun
+  cases a with
+  | false => simp at hrun; rw [← hrun.1]; exact hG
+  | true =>
+    simp only [Bool.not_true, Bool.false_eq_true, if_false, DomDoc.run_bind_pure] at hrun
+    rw [run_bind_liftH, initNode_run] at hrun
+    exact appendNew_good hG hb htp htt hrun hr
+
+/-! ### rebuilding the indexes from the top; the two document-level queries -/
+
+theorem edGet_nil (q : Nat) : edGet [] q = [] := rfl
+
+/-- **C09 (rebuild)**: `rebuild_caches()` from the top (with b44089a: from empty indexes) yields
+    an index that lists every attached element exactly once -/
+theorem rebuildAll_good {s s' : DState} {r : Except Err Unit} (hG : Good s)
+    (hrun : (rebuildAll).run s = (s', r)) (hr : r ≠ .error .RecursionError) : Good s' := by
+  obtain ⟨hI, hA, hC⟩ := hG
+  unfold rebuildAll at hrun
+  simp only [DomDoc.run_bind_upd, DomDoc.run_bind_rd] at hrun
+  rw [rebuildCaches_run] at hrun
+  cases hl : elemsUnder s.heap s.top with
+  | none => simp only [hl] at hrun; cases hrun; exact absurd rfl hr
+  | some l =>
+    simp only [hl] at hrun
+    cases hrun
+    obtain ⟨b1, b2, b3, b4⟩ := foldBuild_view l { s with edict := [], sdict := [] }
+    have hs : SameLinks s.heap (l.foldl (fun s x => buildPure x s) { s with edict := [], sdict := [] }).heap := b1
+    have hlspec := fun x => elems_spec hI (f := FUEL) (n := s.top) (l := l) hl x
+    have hlnd := elems_nodup hI hA FUEL s.top l hl
+    refine ⟨inv_sameLinks hI hs, acyclic_sameLinks hA hs, ?_⟩
+    have hatt := att_congr (s := s) b3 (fun y => (hs y).2.1)
+    have hed : ∀ q, ed (l.foldl (fun s x => buildPure x s) { s with edict := [], sdict := [] }) q
+        = l.filter (fun y => (s.heap y).qn = q) := by
+      intro q; rw [b4 q]; simp [ed, edGet_nil]
+    refine ⟨by rw [b3, (hs _).2.2.2.2.1]; exact hC.top_elem, by rw [b3, (hs _).2.1]; exact hC.top_root, ?_, ?_, ?_, ?_, ?_⟩
+    · intro q; rw [hed q]; exact hlnd.filter _
+    · intro q x _
+      rw [hed q, hatt x, (hs x).2.2.2.2.1, (hs x).2.2.2.2.2]
+      simp only [List.mem_filter, decide_eq_true_eq, hlspec x]
+      exact ⟨fun ⟨⟨a, b⟩, c⟩ => ⟨a, b, c⟩, fun ⟨a, b, c⟩ => ⟨⟨a, b⟩, c⟩⟩
+    · intro q hq
+      rw [hed q] at hq
+      have := (List.mem_filter.mp hq).2
+      rw [b3] at this ⊢
+      rw [(hs _).2.2.2.2.2]; simpa using this
+    · intro x hx; rw [(hs x).2.2.2.2.1] at hx
+      rw [owned_congr b2, hatt x]; exact hC.owned_iff x hx
+    · intro x hx; rw [(hs x).2.2.2.2.1] at hx
+      rw [owned_congr b2]; exact hC.text_unowned x hx
+
+theorem docByType_good {q : Nat} {s s' : DState} {r : Except Err (List Id)} (hG : Good s)
+    (hrun : (docByType q).run s = (s', r)) (hr : r ≠ .error .RecursionError) : Good s' := by
+  unfold docByType at hrun
+  simp only [DomDoc.run_bind_rd] at hrun
+  by_cases he : s.edict.isEmpty = true
+  · simp only [he, if_true] at hrun
+    rw [DomDoc.run_bind] at hrun
+    rcases hb : (rebuildAll).run s with ⟨s1, r1⟩
+    rw [hb] at hrun
+    cases r1 with
+    | error e =>
+      simp only at hrun; cases hrun
+      exact rebuildAll_good hG hb (by intro h; cases h; exact hr rfl)
+    | ok u =>
+      simp only [DomDoc.run_rd] at hrun; cases hrun
+      exact rebuildAll_good hG hb (by intro h; cases h)
+  · simp only [he, if_false, DomDoc.run_bind_pure, DomDoc.run_rd, Bool.false_eq_true] at hrun
+    cases hrun; exact hG
+
+theorem styleByName_good {n : Nat} {s s' : DState} {r : Except Err (Option Id)} (hG : Good s)
+    (hrun : (styleByName n).run s = (s', r)) (hr : r ≠ .error .RecursionError) : Good s' := by
+  unfold styleByName at hrun
+  simp only [DomDoc.run_bind_rd] at hrun
+  by_cases he : s.sdict.isEmpty = true
+  · simp only [he, if_true] at hrun
+    rw [DomDoc.run_bind] at hrun
+    rcases hb : (rebuildAll).run s with ⟨s1, r1⟩
+    rw [hb] at hrun
+    cases r1 with
+    | error e =>
+      simp only at hrun; cases hrun
+      exact rebuildAll_good hG hb (by intro h; cases h; exact hr rfl)
+    | ok u =>
+      simp only [DomDoc.run_rd] at hrun; cases hrun
+      exact rebuildAll_good hG hb (by intro h; cases h)
+  · simp only [he, if_false, DomDoc.run_bind_pure, DomDoc.run_rd, Bool.false_eq_true] at hrun
+    cases hrun; exact hG
+
+/-- **C09 (document-level query)**: what `doc.getElementsByType(f)` returns has no repetition and
+    consists exactly of the attached elements of that qname (the top node aside) -/
+theorem docByType_exact {q : Nat} {s s' : DState} {l : List Id} (hG : Good s)
+    (hrun : (docByType q).run s = (s', .ok l)) :
+    l.Nodup ∧ ∀ x, x ≠ s'.top → (x ∈ l ↔ Att s' x ∧ (s'.heap x).kind = .elem ∧ (s'.heap x).qn = q) := by
+  have hG' := docByType_good hG hrun (by intro h; cases h)
+  have hl : l = ed s' q := by
+    unfold docByType at hrun
+    simp only [DomDoc.run_bind_rd] at hrun
+    by_cases he : s.edict.isEmpty = true
+    · simp only [he, if_true] at hrun
+      rw [DomDoc.run_bind] at hrun
+      rcases hb : (rebuildAll).run s with ⟨s1, (e | u)⟩
+      · rw [hb] at hrun; simp only at hrun; cases hrun
+      · rw [hb] at hrun; simp only [DomDoc.run_rd] at hrun; cases hrun; rfl
+    · simp only [he, if_false, DomDoc.run_bind_pure, DomDoc.run_rd, Bool.false_eq_true] at hrun
+      cases hrun; rfl
+  rw [hl]
+  exact ⟨hG'.2.2.nodup q, fun x hx => hG'.2.2.mem_iff q x hx⟩
+
+/-! ### a fresh document -/
+
+/-- `OpenDocument.__init__` up to `clear_caches()`: a childless top node `0` of qname `q`, owned by
+    the document, empty indexes -/
+def freshDoc (q : Nat) : DState :=
+  runD DState.init [.tree (.newNode 0 .elem q), .mkDoc 0]
+
+def fresh0 (q : Nat) : DState :=
+  { heap := Heap.empty.set 0 { kind := .elem, qn := q }, ownedL := [(0, true)], top := 0,
+    edict := [], sdict := [], fix := [] }
+
+theorem freshDoc_eq (q : Nat) : freshDoc q = fresh0 q := rfl
+
+theorem fresh0_owned (q : Nat) (x : Id) : (fresh0 q).owned x = decide (x = 0) := by
+  by_cases hx : x = 0
+  · subst hx; rfl
+  · have : (x == 0) = false := by simp [hx]
+    simp [fresh0, DState.owned, List.lookup, hx, this]
+
+theorem good_fresh (q : Nat) : Good (freshDoc q) := by
+  rw [freshDoc_eq]
+  have hb : Blank Heap.empty 0 := ⟨rfl, rfl⟩
+  have hpar : ∀ y, ((fresh0 q).heap y).parent = none := by
+    intro y; show ((Heap.empty.set 0 { kind := .elem, qn := q }) y).parent = none
+    rw [Heap.set_apply]; split <;> rfl
+  have hkind0 : ((fresh0 q).heap 0).kind = .elem := by
+    show ((Heap.empty.set 0 { kind := .elem, qn := q }) 0).kind = .elem
+    simp
+  have hatt : ∀ x, Att (fresh0 q) x → x = 0 := fun x ha => anc_of_no_parent (hpar x) ha
+  refine ⟨initNode_inv inv_empty hb .elem q, acyclic_of_same_parents acyclic_empty (fun y => by
+    show ((Heap.empty.set 0 { kind := .elem, qn := q }) y).parent = _
+    rw [Heap.set_apply]; split <;> rfl), ?_⟩
+  refine ⟨hkind0, hpar 0, fun _ => List.nodup_nil, ?_, ?_, ?_, ?_⟩
+  · intro qq x hx
+    constructor
+    · intro hm; cases hm
+    · rintro ⟨ha, _⟩; exact absurd (hatt x ha) hx
+  · intro qq hm; cases hm
+  · intro x _
+    rw [fresh0_owned]
+    by_cases hx : x = 0
+    · subst hx; simp; exact AncOrSelf.refl
+    · simp only [hx, decide_false, Bool.false_eq_true, false_iff]
+      intro ha; exact hx (hatt x ha)
+  · intro x hk
+    rw [fresh0_owned]
+    have hx : x ≠ 0 := by intro e; subst e; exact hk hkind0
+    simp [hx]
+
+/-! ### every operation; every history -/
+
+/-- side conditions of a step: the caller error the property excludes (a node inserted into itself
+    or its own descendant), the document's top node is never re-created or inserted anywhere, new
+    Text objects are not their receiver; `mkDoc` belongs to document creation only -/
+def OpOk (s : DState) : DOp → Prop
+  | .tree (.newNode i _ _) => i ≠ s.top
+  | .tree (.append p c) => ¬ AncOrSelf s.heap c p ∧ c ≠ s.top
+  | .tree (.insertBefore p n _) => ¬ AncOrSelf s.heap n p ∧ n ≠ s.top
+  | .tree (.addElement p c _) => ¬ AncOrSelf s.heap c p ∧ c ≠ s.top
+  | .tree (.addText p t _ _) => t ≠ p ∧ t ≠ s.top
+  | .tree (.addCDATA p t _) => t ≠ p ∧ t ≠ s.top
+  | .tree _ => True
+  | .mkDoc _ => False
+  | .byType _ => True
+  | .styleByName _ => True
+  | .replaceGenerator _ _ _ => False      -- see `replaceGenerator_good`
+
+theorem liftH_fresh_run (i : Id) (s : DState) :
+    (liftH (fresh i)).run s = if Blank s.heap i then (s, .ok ()) else (s, .error .Other) := by
+  rw [run_liftH, fresh_run]; split <;> rfl
+
+/-- **C09 (one step)**: every operation of a history — tree edits on attached and detached
+    parents, whole subtrees added / removed / re-added / moved, text nodes, attribute calls, the
+    two document-level queries (which may rebuild the indexes) — keeps the element index and
+    ownerDocument coherent with the tree, whether it succeeds or is refused. -/
+theorem coherent_step_partial {s s' : DState} {op : DOp} {r : Except Err Unit} (hG : Good s) (hok : OpOk s op)
+    (hrun : (stepD op).run s = (s', r)) (hr : r ≠ .error .RecursionError) : Good s' := by
+  cases op with
+  | mkDoc t => exact absurd hok id
+  | replaceGenerator m g t => exact absurd hok id
+  | byType q =>
+    simp only [stepD] at hrun
+    rw [DomDoc.run_bind] at hrun
+    rcases hb : (docByType q).run s with ⟨s1, r1⟩
+    rw [hb] at hrun
+    cases r1 with
+    | error e => simp only at hrun; cases hrun; exact docByType_good hG hb (by intro h; cases h; exact hr rfl)
+    | ok l => simp only [DomDoc.run_pure] at hrun; cases hrun; exact docByType_good hG hb (by intro h; cases h)
+  | styleByName n =>
+    simp only [stepD] at hrun
+    rw [DomDoc.run_bind] at hrun
+    rcases hb : (styleByName n).run s with ⟨s1, r1⟩
+    rw [hb] at hrun
+    cases r1 with
+    | error e => simp only at hrun; cases hrun; exact styleByName_good hG hb (by intro h; cases h; exact hr rfl)
+    | ok l => simp only [DomDoc.run_pure] at hrun; cases hrun; exact styleByName_good hG hb (by intro h; cases h)
+  | tree top =>
+    cases top with
+    | newNode i k qn =>
+      simp only [stepD, step] at hrun
+      rw [run_liftH, Dom.run_bind, fresh_run] at hrun
+      by_cases hb : Blank s.heap i
+      · simp only [hb, if_true, initNode_run] at hrun
+        cases hrun; exact initNode_good hG hb hok k qn
+      · simp only [hb, if_false] at hrun
+        cases hrun; exact hG
+    | append p c => exact appendChild_good hG hok.1 hok.2 hrun hr
+    | insertBefore p n ref => exact insertBefore_good hG hok.1 hok.2 hrun hr
+    | remove p c => exact removeChild_good hG hrun hr
+    | addElement p c a => exact addElement_good hG hok.1 hok.2 hrun hr
+    | addText p t a ne =>
+      simp only [stepD] at hrun
+      rw [DomDoc.run_bind, liftH_fresh_run] at hrun
+      by_cases hb : Blank s.heap t
+      · simp only [hb, if_true] at hrun; exact addText_good hG hb hok.1 hok.2 hrun hr
+      · simp only [hb, if_false] at hrun; cases hrun; exact hG
+    | addCDATA p t a =>
+      simp only [stepD] at hrun
+      rw [DomDoc.run_bind, liftH_fresh_run] at hrun
+      by_cases hb : Blank s.heap t
+      · simp only [hb, if_true] at hrun; exact addCDATA_good hG hb hok.1 hok.2 hrun hr
+      · simp only [hb, if_false] at hrun; cases hrun; exact hG
+    | setAttribute e k t a key conv =>
+      simp only [stepD] at hrun; rw [run_liftH] at hrun; cases hrun
+      exact good_of_sameLinks hG (setAttribute_sameLinks _ _ _ _ _ _ _) rfl rfl rfl
+    | setAttrNS e key conv =>
+      simp only [stepD] at hrun; rw [run_liftH] at hrun; cases hrun
+      exact good_of_sameLinks hG (setAttrNS_sameLinks _ _ _ _) rfl rfl rfl
+    | removeAttribute e k t a key =>
+      simp only [stepD] at hrun; rw [run_liftH] at hrun; cases hrun
+      exact good_of_sameLinks hG (removeAttribute_sameLinks _ _ _ _ _ _) rfl rfl rfl
+
+/-- a history whose every step meets the side conditions and stays within the recursion budget -/
+def HistoryOk : DState → List DOp → Prop
+  | _, [] => True
+  | s, op :: rest => OpOk s op ∧ ((stepD op).run s).2 ≠ .error .RecursionError ∧ HistoryOk ((stepD op).run s).1 rest
+
+theorem coherent_runD (ops : List DOp) : ∀ s, Good s → HistoryOk s ops → Good (runD s ops) := by
+  induction ops with
+  | nil => intro s hG _; exact hG
+  | cons op rest ih =>
+    intro s hG hh
+    exact ih _ (coherent_step_partial hG hh.1 rfl hh.2.1) hh.2.2
+
+/-- **C09 (any history)**: from a fresh document, after an edit history of ANY length, the element
+    index lists exactly the attached elements, each once, under its qname, and ownerDocument is
+    set exactly on the attached elements.  (`_partial`: `__replaceGenerator` is covered by the
+    separate theorem `replaceGenerator_good`; the style dictionary by `styles_step_partial`.) -/
+theorem coherent_reachable_partial (q : Nat) (ops : List DOp) (hh : HistoryOk (freshDoc q) ops) :
+    Good (runD (freshDoc q) ops) :=
+  coherent_runD ops _ (good_fresh q) hh
+
+/-! ### consequences in the words of the property -/
+
+/-- "each exactly once": the list kept for a qname is a permutation of ANY duplicate-free
+    enumeration of the attached elements of that qname -/
+theorem coh_perm {s : DState} (hC : CohIdx s) (q : Nat) (hq : (s.heap s.top).qn ≠ q) (l : List Id) (hl : l.Nodup)
+    (hmem : ∀ x, x ∈ l ↔ x ≠ s.top ∧ Att s x ∧ (s.heap x).kind = .elem ∧ (s.heap x).qn = q) :
+    (ed s q).Perm l := by
+  rw [List.perm_ext_iff_of_nodup (hC.nodup q) hl]
+  intro x
+  by_cases hx : x = s.top
+  · subst hx
+    constructor
+    · intro hm; exact absurd (hC.top_mem q hm) hq
+    · intro hm; exact absurd rfl ((hmem _).mp hm).1
+  · rw [hC.mem_iff q x hx, hmem x]; simp [hx]
+
+/-- **C09 ("elements of detached subtrees never appear")** -/
+theorem detached_never_listed {s : DState} (hC : CohIdx s) {x : Id} (hx : ¬ Att s x) (q : Nat) : x ∉ ed s q := by
+  intro hm
+  by_cases ht : x = s.top
+  · subst ht; exact hx AncOrSelf.refl
+  · exact hx ((hC.mem_iff q x ht).mp hm).1
+
+theorem elemsUnder_text {h : Heap} {c : Id} (hk : (h c).kind ≠ .elem) : elemsUnder h c = some [] :=
+  elems_of_not_elem hk FUEL
+
+theorem dropFromIndexes_text {p c : Id} {s : DState} (hk : (s.heap c).kind ≠ .elem) :
+    (dropFromIndexes p c).run s = (s, .ok ()) := by
+  unfold dropFromIndexes
+  simp only [DomDoc.run_bind_rd]
+  have : (s.owned p && decide ((s.heap c).kind = .elem)) = false := by simp [hk]
+  simp only [this, Bool.false_eq_true, if_false, DomDoc.run_bind_pure]
+  rw [setOwnerRec_run, elemsUnder_text hk]
+  rfl
+
+theorem childAttached_text {p c : Id} {s : DState} (hk : (s.heap c).kind ≠ .elem) :
+    (childAttached p c).run s = (s, .ok ()) := by
+  unfold childAttached
+  simp only [DomDoc.run_bind_rd]
+  rw [DomDoc.run_bind, setOwnerRec_run, elemsUnder_text hk]
+  simp only [List.foldl_nil, DomDoc.run_bind_rd]
+  have : (s.owned p && decide ((s.heap c).kind = .elem)) = false := by simp [hk]
+  simp [this]
+
+/-- **C09 ("text nodes can be … removed like any other node")**: removing a text or CDATA child
+    never touches the indexes or any ownerDocument, and does not run into the recursion budget; it
+    is refused only when the node is not a child (NotFoundErr) -/
+theorem text_node_remove_keeps_index {p c : Id} {s s' : DState} {r : Except Err Unit}
+    (hk : (s.heap c).kind ≠ .elem) (hrun : (DomDoc.removeChild p c).run s = (s', r)) :
+    s'.edict = s.edict ∧ s'.sdict = s.sdict ∧ s'.ownedL = s.ownedL ∧
+    (r = .ok () ∨ (r = .error .NotFound ∧ s' = s)) := by
+  unfold DomDoc.removeChild at hrun
+  simp only [DomDoc.run_bind_rd] at hrun
+  by_cases hkp : (s.heap p).kind = .elem
+  · by_cases hc : c ∈ (s.heap p).kids
+    · simp [hkp, hc] at hrun
+      rw [run_bind_liftH, unlink_run] at hrun
+      simp only at hrun
+      have hk1 : (({ s with heap := rm5 s.heap p c } : DState).heap c).kind ≠ .elem := by
+        show (rm5 s.heap p c c).kind ≠ .elem
+        rw [(rm5_fields s.heap p c c).2.1]; exact hk
+      rw [DomDoc.run_bind, dropFromIndexes_text hk1] at hrun
+      simp only [run_liftH_upd] at hrun
+      cases hrun
+      exact ⟨rfl, rfl, rfl, Or.inl rfl⟩
+    · simp [hkp, hc] at hrun
+      rw [← hrun.1, ← hrun.2]; exact ⟨rfl, rfl, rfl, Or.inr ⟨rfl, rfl⟩⟩
+  · simp [hkp] at hrun
+    rw [← hrun.1, ← hrun.2]; exact ⟨rfl, rfl, rfl, Or.inr ⟨rfl, rfl⟩⟩
+
+/-- **C09 ("text nodes can be added [and] moved … like any other node")**: appending a detached
+    text or CDATA node to an element succeeds and touches neither index nor ownerDocument -/
+theorem text_node_append_keeps_index {p c : Id} {s s' : DState} {r : Except Err Unit}
+    (hkp : (s.heap p).kind = .elem) (hk : (s.heap c).kind ≠ .elem) (hdet : (s.heap c).parent = none)
+    (hrun : (DomDoc.appendChild p c).run s = (s', r)) :
+    r = .ok () ∧ s'.edict = s.edict ∧ s'.sdict = s.sdict ∧ s'.ownedL = s.ownedL := by
+  unfold DomDoc.appendChild at hrun
+  simp only [DomDoc.run_bind_rd] at hrun
+  simp only [hkp, ne_eq, not_true, if_false, DomDoc.run_bind_pure] at hrun
+  have hdrun : (DomDoc.detachIfAttached c).run s = (s, .ok ()) := by
+    unfold DomDoc.detachIfAttached
+    simp only [DomDoc.run_bind_rd, hdet]; rfl
+  rw [DomDoc.run_bind, hdrun] at hrun
+  simp only at hrun
+  rw [run_bind_liftH, appendRaw_run] at hrun
+  simp only at hrun
+  rw [run_bind_liftH, Dom.run_upd] at hrun
+  simp only at hrun
+  have hk1 : (({ s with heap := setNext (appRawHeap s.heap p c) c none } : DState).heap c).kind ≠ .elem := by
+    show (setNext (appRawHeap s.heap p c) c none c).kind ≠ .elem
+    rw [app_kind]; exact hk
+  rw [childAttached_text hk1] at hrun
+  cases hrun
+  exact ⟨rfl, rfl, rfl, rfl⟩
+
+/-! ### the style dictionary: statement, the two findings, what is proved -/
+
+/-- a style:style element that is attached, under office:styles or office:automatic-styles -/
+def RegisteredStyle (s : DState) (e : Id) : Prop :=
+  Att s e ∧ (s.heap e).kind = .elem ∧ (s.heap e).qn = QN_STYLE ∧
+  ∃ pp, (s.heap e).parent = some pp ∧ ((s.heap pp).qn = QN_STYLES ∨ (s.heap pp).qn = QN_AUTOSTYLES)
+
+/-- **the property for name lookups, at full strength**: `getStyleByName(n)` answers `e` exactly
+    when `e` is a style of that name currently in the document.  NOT preserved by every history of
+    the code as it is: see `finding_style_rename` and `finding_style_duplicate_name` (known findings
+    KF-C09-1, KF-C09-2); over histories it is checked by correspondence and oracle only. -/
+def CohStyles (s : DState) : Prop :=
+  ∀ n e, sdGet s.sdict n = some e ↔ RegisteredStyle s e ∧ lookupAttr KEY_STYLE_NAME (s.heap e).attrs = some n
+
+/-- document 0 with office:styles 1 (attached) and a style 2 named 7 under it -/
+def docWithStyle : DState :=
+  runD (freshDoc 9) [.tree (.newNode 1 .elem QN_STYLES), .tree (.append 0 1), .tree (.newNode 2 .elem QN_STYLE),
+    .tree (.setAttrNS 2 KEY_STYLE_NAME (.ok 7)), .tree (.append 1 2)]
+
+example : sdGet docWithStyle.sdict 7 = some 2 := by decide +kernel
+example : edGet docWithStyle.edict QN_STYLE = [2] := by decide
+
+/-- **finding KF-C09-1 (`style-rename`)**, on the model that is in lock-step with the code: after
+    `style.setAttrNS(style:name, 8)` on the attached style, the name it now bears finds nothing, its
+    old name still finds it — and still does after the style was removed from the document -/
+theorem finding_style_rename :
+    let s1 := runD docWithStyle [.tree (.setAttrNS 2 KEY_STYLE_NAME (.ok 8))]
+    let s2 := runD s1 [.tree (.remove 1 2)]
+    lookupAttr KEY_STYLE_NAME (s1.heap 2).attrs = some 8 ∧ sdGet s1.sdict 8 = none ∧ sdGet s1.sdict 7 = some 2 ∧
+    (s2.heap 2).parent = none ∧ sdGet s2.sdict 7 = some 2 := by
+  decide
+
+/-- so the full-strength statement fails after a rename of a registered style -/
+theorem finding_style_rename_breaks_CohStyles :
+    ¬ CohStyles (runD docWithStyle [.tree (.setAttrNS 2 KEY_STYLE_NAME (.ok 8))]) := by
+  intro h
+  have h1 := (h 7 2).mp (by decide)
+  have h2 : lookupAttr KEY_STYLE_NAME
+      ((runD docWithStyle [.tree (.setAttrNS 2 KEY_STYLE_NAME (.ok 8))]).heap 2).attrs = some 8 := by decide
+  rw [h2] at h1
+  exact absurd h1.2 (by decide)
+
+/-- **finding KF-C09-2 (`style-duplicate-name`)**: styles named 'MA' (token 1007), 'A' (7), then a
+    second 'A': the rename-on-collision gives it 'MA' and the dictionary entry of the first 'MA'
+    style; removing it leaves the lookup of 'MA' empty although style 2 is still there -/
+theorem finding_style_duplicate_name :
+    let s := runD (freshDoc 9) [.tree (.newNode 1 .elem QN_STYLES), .tree (.append 0 1),
+      .tree (.newNode 2 .elem QN_STYLE), .tree (.setAttrNS 2 KEY_STYLE_NAME (.ok (mName 7))), .tree (.append 1 2),
+      .tree (.newNode 3 .elem QN_STYLE), .tree (.setAttrNS 3 KEY_STYLE_NAME (.ok 7)), .tree (.append 1 3),
+      .tree (.newNode 4 .elem QN_STYLE), .tree (.setAttrNS 4 KEY_STYLE_NAME (.ok 7)), .tree (.append 1 4)]
+    let s' := runD s [.tree (.remove 1 4)]
+    lookupAttr KEY_STYLE_NAME (s.heap 4).attrs = some (mName 7) ∧ sdGet s.sdict (mName 7) = some 4 ∧
+    (s'.heap 1).kids = [2, 3] ∧ lookupAttr KEY_STYLE_NAME (s'.heap 2).attrs = some (mName 7) ∧
+    sdGet s'.sdict (mName 7) = none := by
+  decide
+
+/-- registering a style under a name that is free: that name now finds it, other names are as before
+    (`_partial`: a single registration, not a history) -/
+theorem styles_register_partial {s : DState} {x pp : Id} {n : Nat}
+    (hn : lookupAttr KEY_STYLE_NAME (s.heap x).attrs = some n) (hp : (s.heap x).parent = some pp)
+    (hq : (s.heap pp).qn = QN_STYLES ∨ (s.heap pp).qn = QN_AUTOSTYLES) (hfree : sdGet s.sdict n = none) :
+    sdGet (registerPure x s).sdict n = some x ∧ ∀ m, m ≠ n → sdGet (registerPure x s).sdict m = sdGet s.sdict m := by
+  have key : ∀ (d : List (Nat × Id)) (a b : Nat) (v : Id),
+      sdGet (sdSet d a v) b = if b = a then some v else sdGet d b := by
+    intro d a b v
+    induction d with
+    | nil =>
+      by_cases h : b = a
+      · subst h; simp [sdSet, sdGet]
+      · simp [sdSet, sdGet, h, Ne.symm h]
+    | cons c r ih =>
+      obtain ⟨k, w⟩ := c
+      simp only [sdSet]
+      by_cases hk : k = a
+      · subst hk
+        by_cases h : b = k
+        · subst h; simp [sdGet]
+        · simp [sdGet, h, Ne.symm h]
+      · simp only [hk, if_false, sdGet, ih]
+        by_cases h2 : k = b
+        · subst h2; simp [hk]
+        · simp [h2]
+  unfold registerPure
+  simp only [hn, hp, hq, if_true, hfree, Option.isSome_none, Bool.false_eq_true, if_false]
+  refine ⟨by rw [key]; simp, fun m hm => by rw [key]; simp [hm]⟩
 
 end OdfModel.Props.C09
